@@ -317,6 +317,28 @@ PROPS.update({
     ),
 })
 
+import glob as _glob
+_PAR_FILES = sorted(f for f in _glob.glob('/repo/**/*.par', recursive=True) if '/target/' not in f)
+
+PROPS.update({
+    'C26': dict(
+        level='other',
+        level_text='Exploration of the REAL generator pipeline (parol::build::Builder: read, check, transform, analyse, generate, write) under '
+                   'catch_unwind on byte-string fuzz, token soup over the PAR vocabulary, valid generated EBNF grammars of both grammar types '
+                   'and mutated repository grammars, K in {1,2,3,5}; a panic is a violation, reported with its location. Rocq contributes '
+                   'the exact characterisation of the two modelled panic guards (Terminals::new: C26_terminals_new_guard; lalry start-symbol '
+                   'precondition after augmentation: C26_lalry_precondition).',
+        level_note='A Gallina model is total by construction and proves nothing about Rust panics; this property is decided by running the '
+                   'code. Known findings: lalry panics on cyclic LALR grammars; Terminals::new panics beyond 4095 terminals.',
+        technique='exploration of the real pipeline under catch_unwind (Rocq only characterises two panic guards)',
+        streams=[dict(cmd='c26', quick=2400, thorough=120000, extra=_PAR_FILES)],
+        rule='per case one text through the whole pipeline: 1/4 random bytes, 1/4 token soup, 1/4 valid generated EBNF (LL and LALR), 1/4 '
+             '1-3 character/token mutations of repository or generated grammars; plus cyclic-grammar and 4100-terminal witnesses; '
+             'non-trivial = the text reached the analysis/generation stages (valid or mutant kind); distinct = distinct case text',
+        explanation='Exploration with proved guards; see level_text.',
+    ),
+})
+
 import lschecks
 
 PROPS.update({
